@@ -137,6 +137,10 @@ var flagMu sync.Mutex
 // Check runs one sub-check: replay mode if VERIF_REPLAY is set, otherwise a
 // rapid campaign of Opts.Checks cases (scaled by tier, divided over shards).
 func Check[C any](t *testing.T, o Opts, gen func(*rapid.T) C, run func(C) Result) {
+	if FuzzF != nil {
+		fuzz(o, gen, run)
+		return
+	}
 	t.Helper()
 	if rp := os.Getenv("VERIF_REPLAY"); rp != "" {
 		replay(t, o, rp, run)
@@ -249,6 +253,32 @@ func Check[C any](t *testing.T, o Opts, gen func(*rapid.T) C, run func(C) Result
 		}
 	}
 	rapid.Check(t, prop)
+}
+
+// FuzzF / FuzzName switch Check into coverage-guided mode: the sub-check named
+// FuzzName ("<ID>/<name>") hands its property to Go's native fuzzer through
+// rapid.MakeFuzz (the fuzzer mutates the byte stream rapid draws from), every
+// other sub-check is a no-op. A failing case is written as an ordinary fail
+// file, so it replays through the normal --replay path without the fuzzer.
+var (
+	FuzzF    *testing.F
+	FuzzName string
+)
+
+func fuzz[C any](o Opts, gen func(*rapid.T) C, run func(C) Result) {
+	if o.ID+"/"+o.Name != FuzzName {
+		return
+	}
+	FuzzF.Fuzz(rapid.MakeFuzz(func(rt *rapid.T) {
+		c := gen(rt)
+		res := safeRun(o, run, c)
+		if res.Violation != nil {
+			cj, _ := json.Marshal(c)
+			b, _ := json.Marshal(&failFile{Property: o.ID, Name: o.Name, Signature: res.Violation.Signature, Message: res.Violation.Message, Case: cj})
+			_ = os.WriteFile(filepath.Join(outDir(), fmt.Sprintf("fail-%s-%s-fuzz%d.json", o.ID, o.Name, os.Getpid())), b, 0o644)
+			rt.Fatalf("VIOLATION %s", res.Violation.Error())
+		}
+	}))
 }
 
 func replay[C any](t *testing.T, o Opts, path string, run func(C) Result) {
